@@ -147,6 +147,14 @@ class _Visitor(ast.NodeVisitor):
 
     def visit_Call(self, node):
         f = node.func
+        if isinstance(f, ast.Attribute) and f.attr in ("append", "add", "extend", "insert", "update", "setdefault") \
+                and isinstance(f.value, ast.Name) and f.value.id != "self":
+            # a local container filled element by element from a snapshot carries the snapshot's taint
+            t = set()
+            for a in list(node.args) + [k.value for k in node.keywords]:
+                t |= self._taint_of(a)
+            if t:
+                self.taint[f.value.id] = self.taint.get(f.value.id, set()) | t
         if isinstance(f, ast.Attribute) and f.attr in self.MUTATORS and isinstance(f.value, ast.Attribute) \
                 and isinstance(f.value.value, ast.Name) and f.value.value.id == "self" and f.value.attr in self.spec.guarded:
             self._stale_mutation(f.value.attr, list(node.args) + [k.value for k in node.keywords], node.lineno)
